@@ -686,3 +686,122 @@ Lemma lost_update_fixed :
   let s2 := run Fixed (Fg Close :: lost_update_l2_fixed) s1 in
   st_pc s1 = Running /\ st_pc s2 = Closed /\ disk_table s2 4 = Some [(1, 1); (2, 2)].
 Proof. vm_compute. repeat split. Qed.
+
+(* ------------------------------------------------------------------ *)
+(* an accepted change that is not overwritten reaches the file *)
+
+Lemma run_app v l1 l2 s : run v (l1 ++ l2) s = run v l2 (run v l1 s).
+Proof. revert s. induction l1 as [|c l1 IH]; intros s; cbn [app run]; [reflexivity | apply IH]. Qed.
+
+Definition no_change (l : list choice) : Prop :=
+  forall x, In x l -> forall ch, x <> Fg (Change ch).
+
+Lemma run_contents_no_change v l : forall s,
+  Inv s -> no_change l -> forall k, contents (st_mem (run v l s)) k = contents (st_mem s) k.
+Proof.
+  induction l as [|c l IH]; intros s HI Hn k; cbn [run]; [reflexivity|].
+  rewrite IH.
+  - apply step_contents; [exact HI|]. intros ch. apply Hn. now left.
+  - now apply step_Inv.
+  - intros x Hx. apply Hn. now right.
+Qed.
+
+Lemma step_change_running v c s :
+  st_pc s = Running -> step v (Fg (Change c)) s = mkState (do_change c (st_mem s)) (st_fs s) Running.
+Proof. intros H. unfold step. now rewrite H. Qed.
+
+Lemma accepted_change_durable d0 sched0 c mid sched2 :
+  let s0 := run Fixed sched0 (init d0) in
+  let s1 := run Fixed (Fg (Change c) :: mid) s0 in
+  let s2 := run Fixed (Fg Close :: sched2) s1 in
+  st_pc s0 = Running -> no_change mid -> st_pc s1 = Running -> st_pc s2 = Closed ->
+  exists d, disk s2 = Some d /\ forall k, get k d = contents (do_change c (st_mem s0)) k.
+Proof.
+  cbv zeta. intros H0 Hmid H1 H2.
+  assert (Heq : run Fixed (Fg (Change c) :: mid) (run Fixed sched0 (init d0)) =
+                run Fixed (sched0 ++ Fg (Change c) :: mid) (init d0)) by (now rewrite run_app).
+  rewrite Heq in H1, H2.
+  destruct (durable_after_close d0 (sched0 ++ Fg (Change c) :: mid) sched2 H1 H2) as (d & Hd & Hk).
+  exists d. rewrite Heq. split; [exact Hd|]. intros k. rewrite Hk, <- Heq. cbn [run].
+  rewrite run_contents_no_change; [|apply step_Inv, reachable_Inv | exact Hmid].
+  now rewrite step_change_running.
+Qed.
+
+(* what an accepted update shows (the graveyard caveat is C09's subject) *)
+Lemma upd_contents k v m :
+  contents (do_change (Upd k v) m) k = if memN k (m_grave m) then None else Some v.
+Proof.
+  unfold contents, do_change, do_upd, view. cbn [m_trie m_btree m_grave].
+  destruct (memN k (m_grave m)); [reflexivity|]. now rewrite get_cons, N.eqb_refl.
+Qed.
+
+(* ------------------------------------------------------------------ *)
+(* close terminates: under a scheduler that keeps running both the drop and the
+   writer, drop returns (so the durability theorem is not vacuous for any
+   history) *)
+
+Fixpoint fair (n : nat) : list choice :=
+  match n with
+  | O => []
+  | S k => Dr :: Wr :: fair k
+  end.
+
+Lemma close_terminates d0 l :
+  let s := run Fixed l (init d0) in
+  st_pc s = Running -> st_pc (run Fixed (Fg Close :: fair 16) s) = Closed.
+Proof.
+  cbv zeta. intros Hr. destruct (reachable_Inv Fixed d0 l) as (d & Hp & Hl).
+  destruct (run Fixed l (init d0)) as [[t b g h dirty] [p tmp] pc].
+  cbn [st_pc st_fs st_mem fs_path] in *. subst pc p.
+  specialize (Hl ltac:(discriminate)). destruct Hl as (_ & _ & Hw).
+  destruct h as [[snap old wp res]|].
+  - destruct (Hw _ eq_refl) as (_ & _ & Hpc). cbn [w_pc w_snap w_old w_result fs_tmp fs_path] in Hpc.
+    destruct wp as [|n| | |].
+    + destruct dirty; vm_compute; reflexivity.
+    + destruct Hpc as (Hle & Htmp & _). subst tmp.
+      assert (Hn : n = 0 \/ n = 1 \/ n = 2) by (unfold n_chunks in Hle; lia).
+      destruct Hn as [->|[->| ->]]; destruct dirty; vm_compute; reflexivity.
+    + destruct Hpc as (Htmp & _). subst tmp. destruct dirty; vm_compute; reflexivity.
+    + destruct dirty; vm_compute; reflexivity.
+    + destruct dirty; vm_compute; reflexivity.
+  - destruct dirty; vm_compute; reflexivity.
+Qed.
+
+(* ------------------------------------------------------------------ *)
+(* statements in the form used by Properties/C10.v *)
+
+Lemma atomic_replace_disk v d0 l :
+  exists d, fs_path (st_fs (run v l (init d0))) = Some (mkFile d n_chunks true) /\
+            disk (run v l (init d0)) = Some d.
+Proof.
+  destruct (atomic_replace v d0 l) as (d & Hp). exists d. split; [exact Hp|].
+  unfold disk. now rewrite Hp.
+Qed.
+
+Lemma snapshot_is_flush_time_state m fs :
+  m_handle m = None -> m_dirty m = true ->
+  m_handle (checkpoint m fs) = Some (mkWriter (snapshot_of m) (decode (fs_path fs)) WStart None) /\
+  forall k, get k (snapshot_of m) = contents m k.
+Proof.
+  intros Hh Hd. split; [now apply checkpoint_spawn|]. intros k. apply get_entries.
+Qed.
+
+Lemma only_changes_change_contents v d0 l c :
+  let s := run v l (init d0) in
+  (forall ch, c <> Fg (Change ch)) ->
+  forall k, contents (st_mem (step v c s)) k = contents (st_mem s) k.
+Proof. cbv zeta. intros Hc. apply step_contents; [apply reachable_Inv | exact Hc]. Qed.
+
+Lemma durable_after_close_pinned_refuted_ex :
+  exists d0 sched1 sched2,
+  let s1 := run Pinned sched1 (init d0) in
+  let s2 := run Pinned (Fg Close :: sched2) s1 in
+  st_pc s1 = Running /\ st_pc s2 = Closed /\
+  exists k v, contents (st_mem s1) k = Some v /\
+              forall d, disk s2 = Some d -> get k d = None.
+Proof.
+  exists [], lost_update_l1, lost_update_l2.
+  destruct durable_after_close_pinned_refuted as (H1 & H2 & H3 & H4).
+  cbv zeta. split; [exact H1|]. split; [exact H2|]. exists 2, 2. split; [exact H3|].
+  intros d Hd. rewrite H4 in Hd. inversion Hd; subst d. reflexivity.
+Qed.
